@@ -191,6 +191,14 @@ def run_shard(shard: Dict[str, Any], rep: Report) -> None:
                 k = jax.random.split(jax.random.PRNGKey(sd))[1]
         if len(rep.samples) < 1 and trace:
             rep.sample({"env": name, "cfg": cid, "gym_seed": sd, "trace_head": trace[:6]})
+        # re-seeding with seed 0 (a falsy value) on an adapter that has already been used
+        for reseed in (0, sd + 7):
+            obs0, _ = g.reset(seed=reseed)
+            s_n, t_n = n_reset(jax.random.split(jax.random.PRNGKey(reseed))[0])
+            rep.evaluated(1)
+            rep.count("gym_reseeds")
+            if tree_diff(flat_gym(obs0), decode(t_n.observation) if not hasattr(t_n.observation, "shape") else {"": np.asarray(t_n.observation)}, **tol):
+                viol("gym_reseed_reproduces_episode", {"seed": reseed, "adapter_seed": sd}, replay={"env": name, "cfg": cfg, "gym_seed": sd, "reseed": reseed}, qualifier="seed0" if reseed == 0 else "")
 
     # ---------------- dm_env -------------------------------------------------------------------------------------
     for sd in seeds[:2]:
